@@ -20,6 +20,9 @@ CHECKS = {
  "C07": dict(technique="runtime monitoring: boolean reference model of request validation + online trace checker of AuthenticationFunc calls, over an exhaustively enumerated case space",
    text="Every combination of document/operation security shape, callback outcomes, parameter layout (override by (in,name), decoy same name other location), good/bad/absent rendering of each parameter and the body, body requiredness and 7 option sets is executed through the real router and ValidateRequest; the verdict must equal the boolean model, MultiError members must be exactly the failing parts, and the recorded sequence of AuthenticationFunc calls (scheme, scopes) must equal the model's evaluation order. Exhaustive over the stated finite space.",
    note="The model is boolean because every part has an independently controlled good/bad/absent rendering; schema reasoning is C01/C05/C06's business. Callback outcomes depend on the scheme name only (scopes are checked in the trace).", ref="4 C07"),
+ "C08": dict(technique="runtime monitoring: reference model of response-definition selection observed through per-entry distinguishing schemas, header/content/as-response reference verdicts, and a body-readability invariant checked after every ValidateResponse call",
+   text="All 63 subsets of {1XX,200,201,2XX,4XX,default} x 18 statuses x GET/HEAD x strict on/off x every index body; header shapes x required x valid/violating/unparsable/absent; content-type cases incl. types without decoder, broken and over-long bodies; readOnly/writeOnly/required object schemas under the as-response reference; after each call input.Body is re-read and compared byte-for-byte. Exhaustive over the stated finite space.",
+   note="Trusts the reference precedence (exact, class, default) and internal/refeval in as-response mode; headers defined by content are only checked for crash-freedom and presence.", ref="4 C08"),
 }
 NOT_YET = {}
 def main():
